@@ -76,7 +76,7 @@ class Lifecycle(core.Scenario):
     def build(self):
         p = self.params
         self.impl = p['impl']
-        w = self.world = cworld.make_client_world(self.impl)
+        w = self.world = cworld.make_client_world(self.impl, legacy_disconnect=bool(p.get('legacy')))
         self.causes = []          # (party, step)
         self.delivered_steps = []
         self.msg_step = {}
@@ -314,7 +314,9 @@ class Lifecycle(core.Scenario):
                            for pty, st in self.causes if st < dstep}
                 if not allowed:
                     allowed = {'transport error'}     # ended by silence / timeouts alone
-                if reason not in allowed:
+                if p.get('legacy'):
+                    pass        # a handler of the older API is not told the reason
+                elif reason not in allowed:
                     self.flag('wrong_reason', 'reason %r, causes before the event %r' % (reason, [q for q in self.causes if q[1] < dstep]), trigger=trig)
                 # message handlers run in the background: one whose packet reached the client before the
                 # disconnect event fired may still run after it (DESIGN S4); anything else may not
@@ -369,7 +371,8 @@ class Lifecycle(core.Scenario):
         w.run_until(w.now + 8)
         got = [e[:2] for e in w.events[n_ev:]]
         got = [(k, a if k != 'connect' else a.get('sid')) for k, a in got]
-        if c2.exc or not c2.done or got != [('connect', 'S2'), ('disconnect', 'server disconnect')] or c.state != 'disconnected':
+        want_reuse = [('connect', 'S2'), ('disconnect', None if p.get('legacy') else 'server disconnect')]
+        if c2.exc or not c2.done or got != want_reuse or c.state != 'disconnected':
             self.flag('not_reusable', 'second connect(): done=%s exc=%r events %r state %r' % (c2.done, c2.exc, got, c.state), trigger=trig)
 
     def expect_established(self):
@@ -544,6 +547,10 @@ def param_list(ctx):
         for tr, extra in ((['polling'], {'connect': 'open'}), (['websocket'], {'connect': '-', 'ws': ['accept', 'open']}),
                           (None, {'connect': 'open_up', 'ws': ['accept', 'probe_ok']})):
             ps.append(dict({'impl': impl, 'transports': tr, 'polls': ['ping', 'close'], 'spacing': 1.75, 'frac': True}, **extra))
+        # 4d. an application written for the older API: a disconnect handler without a reason argument behind a pass-through decorator
+        for tr, extra in ((['polling'], {'connect': 'open'}), (['websocket'], {'connect': '-', 'ws': ['accept', 'open']})):
+            for seq, app in ((['msg', 'close'], []), (['msg'], ['disconnect']), (['err'], [])):
+                ps.append(dict({'impl': impl, 'transports': tr, 'polls': seq, 'app': app, 'legacy': True}, **extra))
         # 5. upgrade attempts
         for beh in (['refuse'], ['accept', 'probe_ok'], ['accept', 'probe_wrong'], ['accept', 'probe_silence'],
                     ['accept', 'probe_close'], ['accept', 'probe_garbage'], ['accept', 'probe_ok_drop']):
